@@ -7,7 +7,7 @@ ID=$1; VAR=$2; LANE=${3:-0}; shift 3 || true
 EXTRA="$@"
 export GOFLAGS=-mod=mod GOPROXY=off GOSUMDB=off GOTOOLCHAIN=local
 WT=/tmp/wtm-$ID; S=/tmp/seeded/$ID/$VAR; OUT=/tmp/seeded/results; mkdir -p $OUT
-LV=/tmp/verif-lane-$LANE
+LV=/tmp/verif-lane-$ID-$VAR
 R=$OUT/$ID-$VAR
 log() { echo "[$ID-$VAR] $*" >> $R.log; }
 : > $R.log
@@ -18,19 +18,23 @@ DEMO=$(ls $S/*_test.go 2>/dev/null | head -1)
 DPATH=$(grep -oE '(x|app|types)/[A-Za-z0-9_/.-]+_test\.go' $S/demo_path.txt | head -1)
 DDIR=$(dirname "$DPATH")
 demo_clean=unknown; demo_mut=unknown
+NDEMO=$(ls $S/*_test.go 2>/dev/null | wc -l)
+place_demo() { if [ "$NDEMO" -gt 1 ]; then for f in $S/*_test.go; do cp $f $WT/$DDIR/zz_seeded_$(basename $f); done; else cp $DEMO $WT/$DPATH; fi; }
+remove_demo() { rm -f $WT/$DPATH $WT/$DDIR/zz_seeded_*_test.go; }
 if [ -n "$DEMO" ] && [ -n "$DPATH" ]; then
-  mkdir -p $WT/$DDIR; cp $DEMO $WT/$DPATH
+  mkdir -p $WT/$DDIR; place_demo
   if (cd $WT && go test -vet=off -count=1 ./$DDIR/ >>$R.log 2>&1); then demo_clean=pass; else demo_clean=FAIL; fi
 fi
 git -C $WT apply $S/patch.diff
-[ -n "$DEMO" ] && [ -n "$DPATH" ] && mkdir -p $WT/$DDIR && cp $DEMO $WT/$DPATH
+[ -n "$DEMO" ] && [ -n "$DPATH" ] && mkdir -p $WT/$DDIR && place_demo
 build=ok; (cd $WT && go build ./... >>$R.log 2>&1) || build=FAIL
 if [ -n "$DEMO" ] && [ -n "$DPATH" ]; then
   if (cd $WT && go test -vet=off -count=1 ./$DDIR/ >>$R.log 2>&1); then demo_mut=pass; else demo_mut=FAIL; fi
-  rm -f $WT/$DPATH
+  remove_demo
 fi
-suite=ok; (cd $WT && go test -vet=off -count=1 -timeout 25m ./... 2>&1 | grep -v "no test files" | grep -v "^ok" >>$R.log) ; if grep -q "^FAIL\|^--- FAIL" $R.log; then :; fi
-(cd $WT && go test -vet=off -count=1 -timeout 25m ./... > $R.suite 2>&1); if grep -q "^FAIL" $R.suite; then suite=FAIL; fi
+suite=ok
+if [ "${SKIP_SUITE:-0}" = 1 ] && [ -s $R.suite ] && grep -q "^ok" $R.suite && ! grep -q "^FAIL" $R.suite; then suite=ok-earlier-run
+else (cd $WT && go test -vet=off -count=1 -timeout 25m ./... > $R.suite 2>&1); if grep -q "^FAIL" $R.suite; then suite=FAIL; fi; fi
 # the check, from a private copy of /verif
 rm -rf $LV; mkdir -p $LV; (cd /verif && tar cf - --exclude=evidence --exclude=.git --exclude=harness/bin . ) | (cd $LV && tar xf -)
 mkdir -p $LV/evidence
